@@ -313,6 +313,17 @@ class Job:
         self.results.append(res)
         return res["status"]
 
+    def judge(self, oid, ok, detail, replay, inputs, nontrivial=True):
+        """a structural fact observed on the lifted run (lengths, identities, tags): discharged if it holds, otherwise
+        reported as a violation only when the replay on the real code reproduces it"""
+        if ok:
+            return self.record(oid, "discharged", detail, nontrivial=nontrivial)
+        out = run_replay(replay, inputs)
+        if not out["ok"]:
+            return self.record(oid, "violated", out.get("detail", detail), nontrivial=nontrivial, replay={"fn": replay, "inputs": out.get("inputs", inputs)})
+        return self.record(oid, "inconclusive", "observed on the lifted run (%s) but not reproduced on the real code: %s" % (detail[:150], out.get("detail", "")[:100]),
+                           nontrivial=nontrivial)
+
     def record(self, oid, status, detail="", nontrivial=True, **extra):
         res = {"id": oid, "status": status, "detail": detail, "time": 0.0, "nontrivial": nontrivial,
                "job": self.name, "hash": _hash(oid + detail)}
